@@ -346,11 +346,6 @@ Tamper ==
   /\ Log(Step("adv", "-", [msg |-> wire'], [res |-> "ok"]))
   /\ UNCHANGED <<ep, aeadLog, pc, prm, sent>>
 
-(* after a tampering the genuine steps run as far as they can; a failure ends the behaviour *)
-GenuineAfterTamper ==
-  /\ status = "tampered"
-  /\ Genuine
-
 Next == (status = "run" /\ Genuine) \/ FixPsk \/ Overwrite \/ Fault \/ Tamper
         \/ (status = "tampered" /\ ~Done /\ Genuine)
 
